@@ -465,6 +465,7 @@ impl Check for C12Check {
             max_batch: 1,
             drops: false,
             bridge_drops: false,
+            bad_items: false,
             dups: false,
             aborts: false,
             noops: crng.chance(1, 3),
